@@ -36,14 +36,18 @@ def _match(a, b, k):
     elif k == "starts-with":
         return a.startswith(b)
     elif k == "ends-with":
-        return b.endswith(b)
+        return a.endswith(b)
     else:
         raise NotImplementedError
 
 
 collations: dict[str, Callable[[str, str, str], bool]] = {
+    # Only a-z are folded (RFC 4790, section 9.2); other characters compare
+    # as they are, so non-ASCII text must not be rejected.
     "i;ascii-casemap": lambda a, b, k: _match(
-        a.encode("ascii").upper(), b.encode("ascii").upper(), k
+        a.encode("utf-8", "surrogateescape").upper(),
+        b.encode("utf-8", "surrogateescape").upper(),
+        k,
     ),
     "i;octet": lambda a, b, k: _match(a, b, k),
     # TODO(jelmer): Follow all rules as specified in
